@@ -5,8 +5,8 @@
    NewLatitude/NewLongitude on the 4 extended bytes) return on the bytes the encoder's field writers
    (encodeValue, writeField) produced is the value put in, up to norm_field (trailing invalid padding of
    arrays, wall-clock reading of local times); and STREAM level (C06_roundtrip below): Decode of the bytes Encode wrote
-   returns a File with content_eq6, for every well-formed in-domain File off the decoder's two recorded time-rule
-   defects. *)
+   returns a File with content_eq6, for every well-formed in-domain File (no side condition on its times: the
+   decoder's two time-rule defects of C12 are repaired, fixed: ac9b0b0, 2f21531). *)
 From Coq Require Import NArith ZArith List Bool String.
 From FitV Require Import Model.Values Model.Bytes Model.Base Model.Profile Model.Encode Model.Decode Spec.RoundTrip
   Model.Header Model.Route Spec.FitSyntax Spec.Grammar Proofs.EncodeProofs Proofs.C06Codec Proofs.C06Defs Proofs.C06Lay
@@ -125,10 +125,10 @@ Proof. exact lay_denote. Qed.
                           the profile length, whole-second timestamps in range, valid coordinates, no valid
                           compressed_speed_distance: known finding csd_accumulator),
      a header as NewHeader makes it with a protocol version Decode accepts,
-     no_time_quirk (file_recs f be)   the record list Encode lays out (a function of f) stays off the decoder's two
-                          recorded time-rule defects (C12: an explicit timestamp 0 on the wire -- e.g. an unset
-                          Timestamp written because another element of the slice has one --, a local timestamp
-                          without a reference >= 0x10000000 before it),
+   (nothing is asked of the times in f beyond in_domain: the former side condition no_time_quirk, which kept the
+   record list off the decoder's two time-rule defects of C12 -- an explicit timestamp 0 on the wire, e.g. an unset
+   Timestamp written because another element of the slice has one; a local timestamp without a reference
+   >= 0x10000000 before it -- is gone with the defects, fixed: ac9b0b0, 2f21531)
    both byte orders, both header sizes, every decode option set, every reader (chunk schedule, trailing bytes) and
    every accumulator state g with ginv g (total_cycles / accumulated_power accumulators absent or mask 0, value 0:
    the initial state and every state reachable from it): Decode of the bytes Encode wrote succeeds, reports the
@@ -141,7 +141,6 @@ Theorem C06_roundtrip : forall f be bs f' o g rd fuel extra,
   proto_ok (h_proto (f_header f)) = true -> h_profile (f_header f) < 65536 ->
   in_domain f = true -> ginv g ->
   encode f be = EOk (bs, f') -> N.of_nat (List.length bs) < 4294967296 ->
-  no_time_quirk (file_recs f be) = true ->
   rd_data rd = bs ++ extra -> (List.length (rd_data rd) + List.length (rd_sched rd) < fuel)%nat ->
   exists rd' file' g' q,
     entry_Decode o g rd fuel =
@@ -154,8 +153,7 @@ Print Assumptions C06_roundtrip.
 Example C06_roundtrip_example :
   wf_file ex_file = true /\ wf_header (f_header ex_file) = true /\ proto_ok (h_proto (f_header ex_file)) = true /\
   h_profile (f_header ex_file) < 65536 /\ in_domain ex_file = true /\
-  (exists bs f', encode ex_file true = EOk (bs, f') /\ N.of_nat (List.length bs) < 4294967296) /\
-  no_time_quirk (file_recs ex_file true) = true.
+  (exists bs f', encode ex_file true = EOk (bs, f') /\ N.of_nat (List.length bs) < 4294967296).
 Proof. exact roundtrip_example. Qed.
 
 Example C06_example : wf_file ex_file = true /\ in_domain ex_file = true.
